@@ -199,10 +199,13 @@ def run_case(seed, tier, rec, st):
                          "@dataclass\nclass Envelope(Generic[T]):\n    tags: List[T]\n    meta: Dict[str, T] = field(default_factory=dict)\n    one: Optional[T] = None\n"
                          f"@dataclass\nclass Page(Envelope[{parg}], Generic[{U}]):\n    items: List[{U}] = field(default_factory=list)\n    first: Optional[{U}] = None\n"
                          f"@dataclass\nclass Book(DataClassDictMixin):\n    p: Page[{carg}]\n    ps: List[Page[{carg}]] = field(default_factory=list)\n"
-                         f"@dataclass\nclass Leafy(Page[{carg}]):\n    extra: int = 0\n")
+                         f"@dataclass\nclass Leafy(Page[{carg}]):\n    extra: int = 0\n"
+                         # a generic dataclass holding ANOTHER specialisation of a generic that shares the TypeVar
+                         f"@dataclass\nclass Outer(Generic[T]):\n    inner: Envelope[{parg}]\n    v: T\n    vs: List[T] = field(default_factory=list)\n"
+                         f"@dataclass\nclass Top(DataClassDictMixin):\n    o: Outer[{carg}]\n")
             m = fam.module
             pv, cv = eval(pval, m.__dict__), eval(cval, m.__dict__)
-            which = rng.choice(["Page", "Book", "Leafy"])
+            which = rng.choice(["Page", "Book", "Leafy", "Outer", "Top"])
             facts = {"kind": "generic-inheritance", "same_typevar": same_tv, "parent_arg": parg, "child_arg": carg, "root": which}
             page = lambda cls=None: (cls or m.Page)([pv], {"k": pv}, pv, [cv, cv], cv)
             if which == "Page":
@@ -211,6 +214,13 @@ def run_case(seed, tier, rec, st):
                 values = [page()]
             elif which == "Book":
                 tsrc, T, values = "Book", m.Book, [m.Book(page(), [page()])]
+            elif which in ("Outer", "Top"):
+                outer = m.Outer(m.Envelope([pv], {"k": pv}, pv), cv, [cv])
+                if which == "Outer":
+                    tsrc = f"Outer[{carg}]"
+                    T, values = eval(tsrc, m.__dict__), [outer]
+                else:
+                    tsrc, T, values = "Top", m.Top, [m.Top(outer)]
             else:
                 tsrc, T, values = "Leafy", m.Leafy, [page(m.Leafy)]
             t = None
